@@ -178,8 +178,12 @@ def s2(ck, an):
                     cls = next((p for p in __import__("sa.model", fromlist=["parents"]).parents(node) if isinstance(p, ast.ClassDef)), None)
                     sites.append((f"class {cls.name}" if cls else f"module {m.name}", d, f"{m.relpath}:{node.lineno}", node))
     ck.floor("nondeterminism sites", len(sites), 4)
+    short_to_f = {f.short: f for f in an.functions()}
     for where, d, loc, node in sites:
-        reason = next((r for (w, sub), r in NONDET_OK.items() if w == where and sub in d), None)
+        # a helper new to the inventory draws on behalf of the reviewed functions that call it
+        wheres = [g.short for g in an.attributed(short_to_f[where])] if where in short_to_f else [where]
+        reasons = [next((r for (w, sub), r in NONDET_OK.items() if w == w_ and sub in d), None) for w_ in wheres]
+        reason = reasons[0] if reasons and all(reasons) else None
         if reason:
             ck.exempt("NONDET:S2.no-hidden-input", f"{where}: {d}", reason)
             ck.ok("NONDET", "S2.no-hidden-input", where, loc, f"reviewed source of nondeterminism: {reason}", construct=f"{where}: {d}")
